@@ -705,6 +705,9 @@ fn run_coreobj_cmd(args: &[String]) -> i32 {
     let seed: u64 = arg(args, "--seed").and_then(|s| s.parse().ok()).unwrap_or(1);
     let out = arg(args, "--out").expect("--out");
     let thorough = tier == "thorough";
+    // with --terms (C08): every minted text is also compared with the specification's token (term evaluator)
+    let terms: Option<Vec<Value>> = arg(args, "--terms").map(|p| serde_json::from_str(&std::fs::read_to_string(&p).expect("terms")).expect("terms json"));
+    let terms = &terms;
     let text = std::fs::read_to_string(&path).expect("behaviours");
     let behs: Vec<Value> = text.lines().filter(|l| !l.trim().is_empty()).map(|l| serde_json::from_str(l).expect("line")).collect();
     let chunks: Vec<Vec<String>> = std::thread::scope(|sc| {
@@ -795,6 +798,10 @@ fn run_coreobj_cmd(args: &[String]) -> i32 {
                                         format!("{}-segments", segs.len())
                                     };
                                     oj["fseg"] = json!(fseg);
+                                    if let Some(ts) = terms {
+                                        let sd = if o["s"] == "s2" { &seeds[1] } else { &seeds[0] };
+                                        oj["specof"] = json!(c08::spec_of(ts, pr, &tok, &kms[0], sd, &msgs, f1, a1));
+                                    }
 
                                 }
                                 o => {
